@@ -317,8 +317,12 @@ func (x *Exec) eval(env *Env, ex Expr) SV {
 				env.vars[n] = *o
 			}
 		}
+		pats := x.choosePatterns(bvs, body)
 		if e.Forall {
-			return SV{T: Forall(bvs, body)}
+			return SV{T: Forall(bvs, body, pats...)}
+		}
+		if len(pats) > 0 && len(bvs) > 0 {
+			return SV{T: &Term{Op: "exists", Sort: SBool, Kind: kQuant, Bound: bvs, Args: []*Term{body}, Pats: pats}}
 		}
 		return SV{T: Exists(bvs, body)}
 	case *ELet:
@@ -335,6 +339,148 @@ func (x *Exec) eval(env *Env, ex Expr) SV {
 	}
 	specFail("cannot evaluate %s", ex.exprString())
 	return SV{}
+}
+
+// choosePatterns selects instantiation triggers for a quantifier written in a contract: array reads and applications of
+// uninterpreted functions whose arguments mention the bound variables directly (no arithmetic on them).  Explicit
+// triggers make the solvers' behaviour independent of incidental term shapes; a quantifier without a usable trigger is
+// left to the solver.
+func (x *Exec) choosePatterns(bvs []*Term, body *Term) [][]*Term {
+	if len(bvs) == 0 {
+		return nil
+	}
+	isB := map[string]int{}
+	for i, b := range bvs {
+		isB[b.Op] = i
+	}
+	type cand struct {
+		t    *Term
+		vars map[int]bool
+		size int
+	}
+	var cands []cand
+	seen := map[string]bool{}
+	var visit func(t *Term) (vars map[int]bool, size int, clean bool, foreign bool)
+	visit = func(t *Term) (map[int]bool, int, bool, bool) {
+		switch t.Kind {
+		case kVar:
+			if i, ok := isB[t.Op]; ok {
+				return map[int]bool{i: true}, 1, true, false
+			}
+			if strings.HasPrefix(t.Op, "q_") || strings.HasPrefix(t.Op, "r_") {
+				return nil, 1, true, true // variable of an enclosing / nested quantifier
+			}
+			return nil, 1, true, false
+		case kLit:
+			return nil, 1, true, false
+		case kQuant:
+			// look inside for candidates, but terms there may mention the inner variables
+			inner := map[string]bool{}
+			for _, b := range t.Bound {
+				inner[b.Op] = true
+			}
+			vs, sz, _, _ := visit(t.Args[0])
+			return vs, sz + 1, false, false
+		}
+		vars := map[int]bool{}
+		size := 1
+		clean := true
+		foreign := false
+		for _, a := range t.Args {
+			vs, sz, cl, fo := visit(a)
+			for v := range vs {
+				vars[v] = true
+			}
+			size += sz
+			clean = clean && cl
+			foreign = foreign || fo
+		}
+		arith := false
+		switch t.Op {
+		case "+", "-", "*", "/", "div", "mod", "godiv", "gomod", "to_real", "to_int", "trunc", "rabs", "rmin", "rmax",
+			"<", "<=", ">", ">=", "=", "and", "or", "not", "=>", "ite", "distinct":
+			arith = true
+		}
+		if arith {
+			if len(vars) > 0 {
+				clean = false
+			}
+			return vars, size, clean, foreign
+		}
+		if len(vars) > 0 && clean && !foreign && size <= 40 {
+			_, isFn := x.U.funcs[t.Op]
+			if t.Op == "select" || isFn {
+				k := t.String()
+				if !seen[k] {
+					seen[k] = true
+					cands = append(cands, cand{t: t, vars: vars, size: size})
+				}
+			}
+		}
+		return vars, size, clean, foreign
+	}
+	visit(body)
+	if len(cands) == 0 {
+		return nil
+	}
+	sort.SliceStable(cands, func(i, j int) bool { return cands[i].size < cands[j].size })
+	// candidates covering all variables
+	var full []cand
+	for _, c := range cands {
+		if len(c.vars) == len(bvs) {
+			full = append(full, c)
+		}
+	}
+	// drop candidates that contain a smaller candidate with the same variables (prefer the innermost reads)
+	minimal := func(cs []cand) []cand {
+		var out []cand
+		for _, c := range cs {
+			contains := false
+			for _, d := range cs {
+				if d.t != c.t && d.size < c.size && len(d.vars) == len(c.vars) && strings.Contains(c.t.String(), d.t.String()) {
+					contains = true
+					break
+				}
+			}
+			if !contains {
+				out = append(out, c)
+			}
+		}
+		return out
+	}
+	if len(full) > 0 {
+		var pats [][]*Term
+		for _, c := range minimal(full) {
+			pats = append(pats, []*Term{c.t})
+			if len(pats) >= 3 {
+				break
+			}
+		}
+		return pats
+	}
+	// one multi-pattern: for each variable the smallest candidate mentioning it
+	var pat []*Term
+	covered := map[int]bool{}
+	for i := range bvs {
+		if covered[i] {
+			continue
+		}
+		found := false
+		for _, c := range cands {
+			if c.vars[i] {
+				pat = append(pat, c.t)
+				for v := range c.vars {
+					covered[v] = true
+				}
+				found = true
+				break
+			}
+		}
+		if !found {
+			return nil
+		}
+	}
+	return [][]*Term{pat}
 }
 
 func (x *Exec) evalIdent(env *Env, name string) SV {
